@@ -12,8 +12,8 @@ import (
 // atomsFull: one value of every kind a script can build, plus Go functions,
 // plus one undefined name.  Used for every hole of a template with <= 3 holes.
 var atomsFull = []string{
-	"n",  // nil
-	"bt", // true
+	"n",              // nil
+	"bt",             // true
 	"i0", "i1", "im", // 0 1 -1
 	"ix", "iy", "iz", // MaxInt64 MinInt64 1<<62
 	"fl",       // 1.5
@@ -21,6 +21,7 @@ var atomsFull = []string{
 	"a",        // untyped slice [1, "b", nil, 2.5]
 	"ta",       // []int64{1,2,3}
 	"ea",       // [] (empty)
+	"na",       // [nil]
 	"m",        // {"a": 1, "b": "x"}  (map[interface{}]interface{})
 	"tm",       // map[string]int64 with one entry
 	"nm",       // nil map[string]int64
@@ -38,8 +39,14 @@ var atomsFull = []string{
 	"x", // undefined (unless bound by the template itself: loop variable, parameter)
 }
 
+// atoms3: for templates with 3 holes.
+var atoms3 = []string{"n", "bt", "i0", "i1", "im", "ix", "iz", "fl", "s", "a", "ta", "ea", "m", "nm", "st", "p", "pa", "np", "co", "cc", "f1", "gv", "x"}
+
 // atomsMid: for templates with 4 holes.
 var atomsMid = []string{"n", "i0", "i1", "im", "ix", "s", "a", "ta", "m", "np", "co", "f1", "x"}
+
+// atomsSmall: 4-hole templates of the quick tier's truncation space.
+var atomsSmall = []string{"n", "i1", "ix", "s", "ta", "m", "np", "f1"}
 
 // atomsD2: the 8-atom universe of depth 2.
 var atomsD2 = []string{"n", "i1", "ix", "s", "ta", "m", "np", "f1"}
@@ -153,7 +160,6 @@ func templates() []template {
 	add("let", 'S', "$L = $E", true, false)
 	add("let22", 'S', "$L , $L = $E , $E", false, false)
 	add("let21", 'S', "$L , $L = $E", true, false)
-	add("let12", 'S', "$L = $E , $E", false, false)
 	add("letmapitem", 'S', "$L , $L = $E [ $E ]", false, false)
 	add("var1", 'S', "var x = $E", true, false)
 	add("var2", 'S', "var x , y = $E", true, false)
@@ -274,17 +280,31 @@ func instantiate(t template, exprAtoms func(nholes int) []string, tyAtoms []stri
 }
 
 func depth1Atoms(nholes int) []string {
-	if nholes >= 4 {
+	switch {
+	case nholes >= 4:
+		return atomsMid
+	case nholes == 3:
+		return atoms3
+	}
+	return atomsFull
+}
+
+// reducedAtoms: the atom sets under the quick tier's truncation space.
+func reducedAtoms(nholes int) []string {
+	switch {
+	case nholes >= 4:
+		return atomsSmall
+	case nholes == 3:
 		return atomsMid
 	}
 	return atomsFull
 }
 
 // g1Patterns: every template x every atom in every hole.
-func g1Patterns() []pattern {
+func g1Patterns(atoms func(int) []string) []pattern {
 	var ps []pattern
 	for _, t := range templates() {
-		ps = append(ps, instantiate(t, depth1Atoms, typeAtoms))
+		ps = append(ps, instantiate(t, atoms, typeAtoms))
 	}
 	return ps
 }
@@ -486,10 +506,14 @@ func patternSpace(name string, ps []pattern, batch int64) space {
 }
 
 func buildSpaces(thorough bool) []space {
-	g1 := g1Patterns()
+	g1 := g1Patterns(depth1Atoms)
 	var sp []space
 	sp = append(sp, patternSpace("G1", g1, 1500))
-	sp = append(sp, patternSpace("D", dPatterns(g1), 6000))
+	if thorough {
+		sp = append(sp, patternSpace("D", dPatterns(g1), 6000))
+	} else {
+		sp = append(sp, patternSpace("D", dPatterns(g1Patterns(reducedAtoms)), 6000))
+	}
 	// bytes
 	bl := 3
 	if thorough {
